@@ -35,7 +35,7 @@ CLAIMED = {
          "strings.Contains is an uninterpreted atom shared by code and specification. renameChildTo's contract (which re-registers names) is assumed; addChild/addChildLocked/removeChild are verified.",
          "4-C09"),
  "C10": ("Proof of the safety half with ghost state: the fid/tag pools (Get/Put proved against their bodies with the pool invariant 'cache and never-issued range are disjoint from outstanding ids') never hand out an id that is outstanding; every clientFile method releases a fid only after the server confirmed Tclunk/Tremove (call-site obligation at pool.Put with the ghost call log) and releases a fid it allocated when the request fails; sendRecv registers the tag in pending before sending, removes the registration when the send fails (F12 fix) and releases the tag only after the call is over.",
-         "NOT decided: the liveness half (a closed connection makes every pending and later call return) is a whole-history property of goroutines/channels; handleOne/waitAndRecv bodies (channel hand-off of the receiver role) have assumed contracts. Tag/fid pools treated as sequential under their mutex (sync.Mutex trusted).",
+         "NOT decided: the liveness half (a closed connection makes every pending and later call return) is a whole-history property of goroutines/channels; handleOne and its lookup callback are verified (only replies to outstanding tags are accepted, a delivered reply unregisters its tag, a receive error clears pending); waitAndRecv (channel hand-off of the receiver role) has an assumed contract. Tag/fid pools treated as sequential under their mutex (sync.Mutex trusted).",
          "4-C10"),
  "C11": ("Proof, unbounded over len/offset/chunk size: chunk() against ghost-accumulated call log of its callback: chunks contiguous, in order, each within the limit, stop at first short or failed chunk, returned count is the sum and error the last one, len(p)==0 issues exactly one call, no panic, termination (decreases).",
          "Callback assumed honest about counts (0 <= n <= len). readAt/writeAt/ReadAt/WriteAt are under contract (one Tread/Twrite per chunk of the payload size).",
